@@ -23,6 +23,11 @@ pub const USERS: [&str; 3] = ["user1", "user2", "user3"];
 pub const DURS: [u64; 4] = [86_400, 86_401, 15_778_463, 31_536_000];
 pub const REWARDS: [&str; 4] = ["uwhale", "uusdc", "rwd", "rwd2"];
 
+/// a flow named by its label (args.lbl, when not empty) or by its id
+fn ident(args: &Value) -> FlowIdentifier {
+    match args["lbl"].as_str() { Some(l) if !l.is_empty() => FlowIdentifier::Label(l.to_string()), _ => FlowIdentifier::Id(args["id"].as_u64().unwrap()) }
+}
+
 pub struct FlowView {
     pub flow_id: u64,
     pub flow_creator: String,
@@ -32,6 +37,12 @@ pub struct FlowView {
     pub claimed: u128,
     pub start_epoch: u64,
     pub end_epoch: u64,
+    /// the flow's label ("" = none); labels need not be unique
+    pub label: String,
+    /// expansion history: epoch -> (amount, end epoch) from that epoch on
+    pub hist: std::collections::BTreeMap<u64, (u128, u64)>,
+    /// the emission ledger: epoch -> tokens emitted up to and including that epoch
+    pub emitted: std::collections::BTreeMap<u64, u128>,
 }
 
 pub struct IncRun {
@@ -110,7 +121,8 @@ impl IncRun {
         // (by default the 100 epochs from the flow's start: an expansion made before a future-dated flow starts, or more
         // than 100 epochs after its start, is not in the default answer).  The whole history is read window by window.
         let cur = self.epoch();
-        let mut hists: std::collections::BTreeMap<u64, std::collections::BTreeMap<u64, u128>> = Default::default();
+        let mut hists: std::collections::BTreeMap<u64, std::collections::BTreeMap<u64, (u128, u64)>> = Default::default();
+        let mut ems: std::collections::BTreeMap<u64, std::collections::BTreeMap<u64, u128>> = Default::default();
         let mut rows: std::collections::BTreeMap<u64, Value> = Default::default();
         let mut w0 = 0u64;
         loop {
@@ -120,7 +132,11 @@ impl IncRun {
                 let id = f["flow_id"].as_u64().unwrap();
                 let h = hists.entry(id).or_default();
                 if let Some(m) = f["asset_history"].as_object() {
-                    for (k, v) in m { h.insert(k.parse::<u64>().unwrap_or(0), v[0].as_str().unwrap().parse::<u128>().unwrap()); }
+                    for (k, v) in m { h.insert(k.parse::<u64>().unwrap_or(0), (v[0].as_str().unwrap().parse::<u128>().unwrap(), v[1].as_u64().unwrap_or(0))); }
+                }
+                let e = ems.entry(id).or_default();
+                if let Some(m) = f["emitted_tokens"].as_object() {
+                    for (k, v) in m { e.insert(k.parse::<u64>().unwrap_or(0), v.as_str().unwrap().parse::<u128>().unwrap()); }
                 }
                 rows.insert(id, f);
             }
@@ -133,7 +149,7 @@ impl IncRun {
             let base: u128 = f["flow_asset"]["amount"].as_str().unwrap().parse().unwrap();
             let hist = &hists[&id];
             out.push(FlowView { flow_id: id, flow_creator: f["flow_creator"].as_str().unwrap().to_string(), info,
-                base, funded: hist.iter().next_back().map(|x| *x.1).unwrap_or(base), claimed: f["claimed_amount"].as_str().unwrap().parse().unwrap(),
+                base, funded: hist.iter().next_back().map(|x| x.1 .0).unwrap_or(base), hist: hist.clone(), emitted: ems[&id].clone(), label: f["flow_label"].as_str().unwrap_or("").to_string(), claimed: f["claimed_amount"].as_str().unwrap().parse().unwrap(),
                 start_epoch: f["start_epoch"].as_u64().unwrap(), end_epoch: f["end_epoch"].as_u64().unwrap() });
         }
         out
@@ -194,7 +210,7 @@ impl IncRun {
         }
         let flows: Vec<Value> = self.flows().iter().map(|f| {
             json!({"id": f.flow_id, "creator": w.name_of(f.flow_creator.as_str()), "asset": self.reward_name(&f.info),
-                   "funded": s(f.funded), "base": s(f.base), "claimed": s(f.claimed), "start": f.start_epoch, "end": f.end_epoch})
+                   "funded": s(f.funded), "base": s(f.base), "claimed": s(f.claimed), "start": f.start_epoch, "end": f.end_epoch, "label": f.label})
         }).collect();
         let mut rbal = serde_json::Map::new();
         let mut col = serde_json::Map::new();
@@ -209,7 +225,8 @@ impl IncRun {
     }
 
     #[allow(clippy::too_many_arguments)]
-    pub fn step(&mut self, rec: &mut Rec, run: u64, step: usize, op: &str, ui: usize, args: Value) {
+    pub fn step(&mut self, rec: &mut Rec, run: u64, step: usize, op: &str, ui: usize, mut args: Value) {
+        if (op == "expandflow" || op == "closeflow") && args.get("lbl").is_none() { args["lbl"] = json!(""); }
         let u = self.users[ui].clone();
         let mut pre = json!({});
         let inc = self.incentive.clone();
@@ -267,21 +284,35 @@ impl IncRun {
                     // start: 0 = unset (the current epoch); otherwise an offset, 100 + k = k epochs in the future, k < 100 = k epochs in the past
                     let start = match args["start"].as_u64().unwrap_or(0) { 0 => None, k if k >= 100 => Some(cur + (k - 100)), k => Some(cur.saturating_sub(k)) };
                     self.w.exec(&u, &inc, &ExecuteMsg::OpenFlow { start_epoch: start, end_epoch: Some(cur + args["len"].as_u64().unwrap_or(10)), curve: None,
-                        flow_asset: ra.asset(a), flow_label: None }, &funds)
+                        flow_asset: ra.asset(a), flow_label: args["label"].as_str().filter(|x| !x.is_empty()).map(|x| x.to_string()) }, &funds)
                 } else {
                     let cur = self.epoch();
                     if std::env::var("WWV_DEBUG_FLOWS").is_ok() { eprintln!("EXPAND id {:?} ext {:?} cur {} amount {} funds {:?}", args["id"], args["ext"], cur, a, funds); }
-                    self.w.exec(&u, &inc, &ExecuteMsg::ExpandFlow { flow_identifier: FlowIdentifier::Id(args["id"].as_u64().unwrap()), end_epoch: match args["ext"].as_u64().unwrap_or(0) { 0 => None, k => Some(cur + k) }, flow_asset: ra.asset(a) }, &funds)
+                    self.w.exec(&u, &inc, &ExecuteMsg::ExpandFlow { flow_identifier: ident(&args), end_epoch: match args["ext"].as_u64().unwrap_or(0) { 0 => None, k => Some(cur + k) }, flow_asset: ra.asset(a) }, &funds)
                 }
             }
             "closeflow" => {
                 let who = match args["by"].as_str().unwrap() { "owner" => self.w.owner.clone(), _ => u.clone() };
                 dpre = self.w.digest();
-                self.w.exec(&who, &inc, &ExecuteMsg::CloseFlow { flow_identifier: FlowIdentifier::Id(args["id"].as_u64().unwrap()) }, &[])
+                self.w.exec(&who, &inc, &ExecuteMsg::CloseFlow { flow_identifier: ident(&args) }, &[])
             }
             _ => panic!("unknown op {op}"),
         };
         let dpost = self.w.digest();
+        // a claim pays every (flow, epoch) with a transfer of its own: the transfers in order, and what the flows' expansion
+        // history and emission ledger say after the claim
+        let mut out = json!({});
+        if op == "claim" && rs.is_ok() {
+            let pays: Vec<Value> = rs.transfers().iter().map(|(c, to, x)| {
+                let a = if *c == self.rwd.to_string() { "rwd".to_string() } else if *c == self.rwd2.to_string() { "rwd2".to_string() } else { c.clone() };
+                json!({"a": a, "to": self.w.name_of(to), "x": s(*x)})
+            }).collect();
+            let fl: Vec<Value> = self.flows().iter().map(|f| json!({"id": f.flow_id, "asset": self.reward_name(&f.info), "base": s(f.base),
+                "start": f.start_epoch, "end": f.end_epoch,
+                "hist": f.hist.iter().map(|(e, (a, en))| json!({"e": e, "amt": s(*a), "end": en})).collect::<Vec<_>>(),
+                "em": f.emitted.iter().map(|(e, x)| json!({"e": e, "x": s(*x)})).collect::<Vec<_>>()})).collect();
+            out = json!({"pays": pays, "flows": fl});
+        }
         // the cw20 allowance left over is set-up noise: clear it so that later steps start clean
         let mut ev = serde_json::Map::new();
         ev.insert("run".into(), json!(run));
@@ -292,6 +323,7 @@ impl IncRun {
         ev.insert("pre".into(), pre);
         ev.insert("res".into(), json!(rs.tag()));
         ev.insert("err".into(), jerr(&rs.err()));
+        ev.insert("out".into(), out);
         ev.insert("dpre".into(), json!(dpre));
         ev.insert("dpost".into(), json!(dpost));
         ev.insert("obs".into(), self.obs());
@@ -317,9 +349,38 @@ pub fn run_random(rec: &mut Rec, seed: u64, run: u64, nops: usize) {
     // runs, is claimed from and finally closed by its creator
     let future_campaign = run % 8 == 5;
     let campaign = run % 4 == 3;
+    // and every eighth run starts with two creators using the same flow label: naming a flow by a shared label must
+    // not let the creator of one of them expand into or close another one's
+    let label_campaign = run % 8 == 1;
     let camp_asset = *gen::pick(&mut r, &["uusdc", "rwd2"]);
     let camp_dur = DURS[0];
     for step in 0..nops {
+        if label_campaign && step < 8 {
+            let fee: u128 = 1000;
+            let fa = p.fee_asset.clone();
+            let flow_funds = |asset: &str, a: u128| -> Value { if asset == fa { json!([{"d": asset, "amt": s(a)}]) } else { json!([{"d": fa, "amt": s(fee)}, {"d": asset, "amt": s(a)}]) } };
+            let a = 5_000u128 + r.gen_range(0..5_000u128);
+            // which of the two creators comes first in storage order: the first opens a back-dated or a current flow
+            let (first, second) = if r.gen_bool(0.5) { (2usize, 0usize) } else { (0, 2) };
+            let (first, second) = if step == 0 { (first, second) } else {
+                let fl = p.flows();
+                let f0 = fl.iter().find(|f| f.label == "shared").map(|f| USERS.iter().position(|x| *x == p.w.name_of(f.flow_creator.as_str())).unwrap_or(0)).unwrap_or(first);
+                (f0, if f0 == 0 { 2 } else { 0 })
+            };
+            match step {
+                0 => p.step(rec, run, step, "openflow", first, json!({"asset": camp_asset, "amt": s(a), "funds": flow_funds(camp_asset, a), "label": "shared", "len": 12, "start": 0})),
+                1 => p.step(rec, run, step, "openflow", second, json!({"asset": camp_asset, "amt": s(a + 3), "funds": flow_funds(camp_asset, a + 3), "label": "shared", "len": 9, "start": 0})),
+                2 => p.step(rec, run, step, "closeflow", second, json!({"id": 0, "lbl": "shared", "by": "user"})),
+                3 => p.step(rec, run, step, "closeflow", 1, json!({"id": 0, "lbl": "shared", "by": "user"})),
+                4 => { let x = 1000 + r.gen_range(0..4000u128);
+                       p.step(rec, run, step, "expandflow", second, json!({"asset": camp_asset, "amt": s(x), "id": 0, "lbl": "shared", "ext": 0, "funds": [{"d": camp_asset, "amt": s(x)}]})) }
+                5 => p.step(rec, run, step, "closeflow", if r.gen_bool(0.5) { first } else { 1 }, json!({"id": 0, "lbl": "shared", "by": if r.gen_bool(0.5) { "owner" } else { "user" }})),
+                // (by now `first` is the creator of whichever flow still carries the label)
+                6 => p.step(rec, run, step, "closeflow", if r.gen_bool(0.3) { second } else { first }, json!({"id": 0, "lbl": "shared", "by": "user"})),
+                _ => p.step(rec, run, step, "closeflow", first, json!({"id": 0, "lbl": "shared", "by": "user"})),
+            }
+            continue;
+        }
         if future_campaign {
             let fee: u128 = 1000;
             let fa = p.fee_asset.clone();
@@ -402,7 +463,9 @@ pub fn run_random(rec: &mut Rec, seed: u64, run: u64, nops: usize) {
                     funds.push(json!({"d": fa, "amt": s(fx)}));
                     funds.push(json!({"d": asset, "amt": s(ax)}));
                 }
-                p.step(rec, run, step, "openflow", ui, json!({"asset": asset, "amt": s(a), "funds": funds, "len": match r.gen_range(0..8) { 0 => 150u64, 1 => 181, 2 => 300, _ => r.gen_range(1..20u64) },
+                // labels are free text and not unique: two creators may use the same one
+                let label = match r.gen_range(0..5) { 0 | 1 => "la", 2 => "lb", _ => "" };
+                p.step(rec, run, step, "openflow", ui, json!({"asset": asset, "amt": s(a), "funds": funds, "label": label, "len": match r.gen_range(0..8) { 0 => 150u64, 1 => 181, 2 => 300, _ => r.gen_range(1..20u64) },
                     "start": match r.gen_range(0..10) { 0 => 1u64, 1 => 3, 2 => 8, 3 => 101, 4 => 105, _ => 0 }}))
             }
             87..=92 => {
@@ -414,7 +477,8 @@ pub fn run_random(rec: &mut Rec, seed: u64, run: u64, nops: usize) {
                 let x = match r.gen_range(0..5) { 0 => a.saturating_sub(1), 1 => a + 1, _ => a };
                 // also stretch the flow (beyond the 180-epoch expansion limit the next expansion re-bases it)
                 let ext: u64 = match r.gen_range(0..8) { 0 => 10, 1 => 100, 2 => 190, 3 => 400, _ => 0 };
-                p.step(rec, run, step, "expandflow", ui, json!({"asset": asset, "amt": s(a), "id": f.flow_id, "ext": ext, "funds": [{"d": asset, "amt": s(x)}]}))
+                let lbl = if !f.label.is_empty() && r.gen_bool(0.4) { f.label.clone() } else { String::new() };
+                p.step(rec, run, step, "expandflow", ui, json!({"asset": asset, "amt": s(a), "id": f.flow_id, "lbl": lbl, "ext": ext, "funds": [{"d": asset, "amt": s(x)}]}))
             }
             _ => {
                 let fl = p.flows();
@@ -426,7 +490,13 @@ pub fn run_random(rec: &mut Rec, seed: u64, run: u64, nops: usize) {
                     1 => ("user", ui),
                     _ => ("user", USERS.iter().position(|x| *x == creator).unwrap_or(ui)),
                 };
-                p.step(rec, run, step, "closeflow", uix, json!({"id": f.flow_id, "by": by}))
+                // by label: the caller is then often the creator of the LAST flow carrying the label, who need not own the first
+                let lbl = if !f.label.is_empty() && r.gen_bool(0.5) { f.label.clone() } else { String::new() };
+                let uix = if !lbl.is_empty() && by == "user" && r.gen_bool(0.6) {
+                    let last = fl.iter().rev().find(|g| g.label == lbl).unwrap();
+                    USERS.iter().position(|x| *x == p.w.name_of(last.flow_creator.as_str())).unwrap_or(uix)
+                } else { uix };
+                p.step(rec, run, step, "closeflow", uix, json!({"id": f.flow_id, "lbl": lbl, "by": by}))
             }
         }
     }
